@@ -469,12 +469,20 @@ fn run_ins(rt: &tokio::runtime::Runtime, l: &[Sexp], workdir: &str, k: usize) ->
             } else {
                 "t".to_string()
             };
+            if kind == "insm" {
+                // ONE statement with all rows
+                let tuples: Vec<String> = rows.iter().map(|row| format!("({})", row.as_list().unwrap().iter().map(|v| sql_val(v.as_atom().unwrap())).collect::<Vec<_>>().join(", "))).collect();
+                if db.run(&format!("insert into {target} values {}", tuples.join(", "))).await.is_err() {
+                    failed += 1;
+                }
+            } else {
             for row in rows {
                 let vals: Vec<String> = row.as_list().unwrap().iter().map(|v| sql_val(v.as_atom().unwrap())).collect();
                 let sql = format!("insert into {target} values ({})", vals.join(", "));
                 if db.run(&sql).await.is_err() {
                     failed += 1;
                 }
+            }
             }
             if kind != "selcast" && src_decls.is_some() && db.run("insert into t select * from s").await.is_err() {
                 failed += 1000;
@@ -857,6 +865,36 @@ fn gen_decls(r: &mut Rng, n: usize) -> Vec<(String, String)> {
         .collect()
 }
 
+/// ONE `INSERT INTO t VALUES (r1), (r2), …` whose literal types DIFFER per row within a column: INT then
+/// DECIMAL, BOOLEAN then INT, NULL first then a value, narrower first / wider first, strings next to
+/// numbers — for every target column type.
+fn gen_insm(r: &mut Rng) -> String {
+    let ncols = 1 + r.below(2) as usize;
+    let tys: Vec<&str> = (0..ncols).map(|_| *r.pick(&["INT", "SMALLINT", "BIGINT", "BOOLEAN", "STRING"])).collect();
+    let decls: Vec<String> = tys.iter().map(|t| format!("({t} {})", r.pick(&["null", "null", "notnull"]))).collect();
+    // per column a family of literal kinds (0 NULL, 1 BOOLEAN, 2 INT, 3 BIGINT literal, 4 DECIMAL, 5 string)
+    let fams: Vec<Vec<u64>> = tys.iter().map(|t| match r.below(8) {
+        0 => vec![2, 4], 1 => vec![1, 2], 2 => vec![0, 2], 3 => vec![2, 3], 4 => vec![0, 2, 4], 5 => vec![1, 2, 4],
+        6 => if *t == "STRING" { vec![1, 2, 5] } else { vec![2, 5] },
+        _ => vec![0, 1, 2, 3],
+    }.into_iter().filter(|k| !(*t == "STRING" && *k == 4)).collect()).collect();
+    let nrows = 2 + r.below(3) as usize;
+    let rows: Vec<String> = (0..nrows).map(|_| {
+        let vs: Vec<String> = fams.iter().zip(&tys).map(|(f, t)| match *r.pick(f) {
+            0 => "null".to_string(),
+            1 => format!("b:{}", r.chance(1, 2)),
+            2 => format!("i32:{}", r.pick(&[0i64, 1, 2, 5, 7, 100, 20])),
+            3 => if *t == "BIGINT" || *t == "STRING" { format!("i64:{}", r.pick(&[3000000000i64, 4294967296])) } else { format!("i32:{}", r.pick(&[3i64, 9])) },
+            4 => format!("d:{}", r.pick(&[25i64, 5, 2075, 10, 70])),
+            _ => format!("s:{}", hex(r.pick(&["12", "7", "true", "a"]).as_bytes())),
+        }).collect();
+        format!("({})", vs.join(" "))
+    }).collect();
+    let d = decls.join(" ");
+    let rws = rows.join(" ");
+    format!("(insm mem (decls {d}) (rows {rws}))\n(insm disk (decls {d}) (rows {rws}))\n(insm diskre (decls {d}) (rows {rws}))")
+}
+
 /// `INSERT INTO t(subset of columns) VALUES (...)`
 fn gen_inscols(r: &mut Rng) -> String {
     let n = 2 + r.below(3) as usize;
@@ -969,7 +1007,33 @@ fn gen_sql(r: &mut Rng) -> String {
         }
     }
     let tys = ["bool", "i16", "i32", "i64", "str", "f64", "dec", "d"];
-    match r.below(10) {
+    match r.below(12) {
+        10 | 11 => {
+            // `SELECT * FROM (VALUES …)`: 2–4 rows whose literal types DIFFER per row within a column
+            // (the VALUES node's type is the union over all rows; the array must be of that type)
+            let ncols = 1 + r.below(2) as usize;
+            let nrows = 2 + r.below(3) as usize;
+            let lit = |r: &mut Rng, k: u64| -> String {
+                match k {
+                    0 => "NULL".into(),
+                    1 => (*r.pick(&["true", "false"])).to_string(),
+                    2 => r.range(-5, 100).to_string(),
+                    3 => (*r.pick(&["3000000000", "4294967296", "-3000000000"])).to_string(),
+                    4 => (*r.pick(&["2.5", "0.5", "20.75", "-1.25", "7.0"])).to_string(),
+                    5 => (*r.pick(&["cast(1.5 as double)", "cast(0.25 as double)", "cast(100 as double)"])).to_string(),
+                    _ => (*r.pick(&["'a'", "'12'", "'true'"])).to_string(),
+                }
+            };
+            // per column a family of union-compatible literal kinds, in random order per row
+            let fams: Vec<Vec<u64>> = (0..ncols).map(|_| match r.below(7) {
+                0 => vec![2, 4], 1 => vec![2, 5], 2 => vec![1, 2], 3 => vec![0, 2, 4], 4 => vec![2, 3], 5 => vec![2, 3, 4, 5], _ => vec![0, 1, 2, 6],
+            }).collect();
+            let rows: Vec<String> = (0..nrows).map(|_| {
+                let vs: Vec<String> = fams.iter().map(|f| { let k = *r.pick(f); lit(r, k) }).collect();
+                format!("({})", vs.join(", "))
+            }).collect();
+            format!("select * from (values {})", rows.join(", "))
+        }
         0..=4 => {
             let k = 1 + r.below(3);
             let items: Vec<String> = (0..k).map(|_| { let t = *r.pick(&tys); e(r, t, 2) }).collect();
@@ -1049,7 +1113,8 @@ fn main() {
                 let line = match r.below(22) {
                     0..=11 => { let d = 1 + r.below(4) as u32; format!("(type {})", gen_t(&mut r, d)) }
                     12..=14 => { let d = r.below(3) as u32; format!("(ptype {})", gen_p(&mut r, d)) }
-                    15 | 16 => gen_ins(&mut r),
+                    15 => gen_ins(&mut r),
+                    16 => if r.chance(1, 2) { gen_ins(&mut r) } else { gen_insm(&mut r) },
                     17 => gen_inscols(&mut r),
                     18 => gen_inssel(&mut r),
                     _ => if r.chance(1, 2) { gen_inssel(&mut r) } else { gen_selcast(&mut r) },
@@ -1093,7 +1158,7 @@ fn main() {
                         let wd = args.get(3).cloned().or_else(|| std::env::var("C16_WORK").ok()).expect("workdir");
                         run_ddl(&rt, l, Some((&wd, k)))
                     }
-                    "ins" | "inscols" | "inssel" | "selcast" => {
+                    "ins" | "insm" | "inscols" | "inssel" | "selcast" => {
                         let wd = args.get(3).cloned().or_else(|| std::env::var("C16_WORK").ok()).expect("workdir");
                         run_ins(&rt, l, &wd, k)
                     }
